@@ -88,7 +88,7 @@ def s_link(v):
 
 
 def run_walk(c):
-    fs = c.fs
+    fs = tree.world(c)
     with fs.installed():
         try:
             m = ManifestRecursiveLoader(posixpath.join(fs.root_path, 'Manifest'),
@@ -171,7 +171,7 @@ def conditions(tier):
     for fx in partitions(parts):
         nm = f'link_w{fx["walker"]}_t{fx["t1"]}{fx["t2"]}'
         cs.append(make_cond(
-            nm, s_link, run_walk, judge_walk, fx, timeout=300, group='M-link', real=False,
+            nm, s_link, run_walk, judge_walk, fx, timeout=300, group='M-link',
             twin=(fx['t1'] == 0 and fx['t2'] == 0),
             descr=f'{WALKERS[fx["walker"]]} on directories a, a/b, c with symlink slots '
                   'a/b/l1, c/l2, l3 whose targets are symbolic over {none, root, a, a/b, c}; '
@@ -188,3 +188,10 @@ ASSUMPTIONS = ['os.walk(followlinks=True) protocol as documented; directory iden
                'noise): outcomes are true / loop / cross-device']
 OUTSIDE = ['more than 3 links / 4 directories', 'mismatching files combined with loops']
 STUBS = ['ModelFS seams incl. the model os.walk with a fuel counter']
+
+
+def validate(seed, tier):
+    """the same link graphs as real symlinks on the real filesystem (instances without a
+    device boundary), unpatched gemato: outcome must equal the model run"""
+    from vf.scen import validate_against_real
+    return validate_against_real(conditions('quick'), seed, per_cond=2, limit=40)
